@@ -5,7 +5,7 @@ From Coq Require Import List NArith String.
 From JV.lib Require Import Bytes Paths.
 From JV.gen Require Import IncludeName TagName DirectiveTables ScannerTable.
 From JV.gen Require Import ScannerTyping.
-From JV.model Require Import TableCheck Core Catalog ScannerSem TagTitle Params Jerr PathParams OrderedMap Description AllOf.
+From JV.model Require Import TableCheck Core Catalog ScannerSem TagTitle Params Jerr PathParams OrderedMap RulesBuilder Description AllOf JsonString.
 From JV.spec Require Import AllOfSpec.
 
 Extraction Language OCaml.
@@ -19,8 +19,10 @@ Extraction "Model.ml"
   Jerr.new_location Jerr.detect_nl
   Description.description Description.annotation Description.trim_space
   OrderedMap.omap_script OrderedMap.oset_script
+  RulesBuilder.rules_script
   PathParams.split_path PathParams.path_parameters PathParams.path_parameters_checked PathParams.register_paths
   AllOf.run_observe AllOf.run AllOf.observe AllOfSpec.spec_schema AllOfSpec.lib_ok AllOfSpec.compare_env AllOfSpec.env_root_level AllOfSpec.env_skeleton AllOfSpec.env_no_array_allof AllOfSpec.env_no_rpc_allof AllOfSpec.spec_tree_owner AllOfSpec.spec_fuel
+  JsonString.json_quote JsonString.json_unquote JsonString.valid_utf8 JsonString.decode_rune
   Core.scan_forest Core.scan_forest_with Core.expand Core.expand_full Core.named Catalog.build Catalog.iid_string
   TableCheck.find_bad TableCheck.table_ok ScannerTyping.gen_typing
   ScannerSem.scan_trace ScannerSem.scan ScannerTable.lexkind_idx ScannerTable.state_idx ScannerTable.state_name
